@@ -1456,20 +1456,20 @@ theorem mpz_import_spec (count : Nat) (order : Int) (size : Nat) (endian : Int) 
       rcases ho with rfl | rfl <;> rcases hee with hE | hE
       · -- order 1, endian -1: MPN_REVERSE
         apply hzp (bytesToLimbs data).reverse
-        · simp [mpz_import, mpz_import_core, ← he', hE, htk]
+        · simp [mpz_import, mpz_import_core, mpz_import_fill, ← he', hE, htk]
         · exact Limbs_reverse.mpr hbL
         · rw [hz, List.take_of_length_le (by simp [hbl]), hiv, hE]
           simp [unlayout, bytesToLimbs_chunks count data hl8, List.map_reverse]
       · exact absurd ⟨rfl, hE⟩ hne
       · -- order -1, endian -1: MPN_COPY
         apply hzp (bytesToLimbs data)
-        · simp [mpz_import, mpz_import_core, ← he', hE, htk]
+        · simp [mpz_import, mpz_import_core, mpz_import_fill, ← he', hE, htk]
         · exact hbL
         · rw [hz, List.take_of_length_le (by simp [hbl]), hiv, hE]
           simp [unlayout, bytesToLimbs_chunks count data hl8]
       · -- order -1, endian 1: MPN_BSWAP
         apply hzp ((bytesToLimbs data).map bswap)
-        · simp [mpz_import, mpz_import_core, ← he', hE, htk]
+        · simp [mpz_import, mpz_import_core, mpz_import_fill, ← he', hE, htk]
         · exact Limbs_map_bswap _
         · rw [hz, List.take_of_length_le (by simp [hbl]), hiv, hE]
           simp only [unlayout, show ¬ ((-1 : Int) ≥ 0) by decide, if_false, show ((1 : Int) ≥ 0) by decide, if_true]
@@ -1502,7 +1502,7 @@ theorem mpz_import_spec (count : Nat) (order : Int) (size : Nat) (endian : Int) 
           = (count * (8 * size - nail) + 63) / 64 := by
         rw [Nat.mul_comm count, ← f2]; split <;> simp <;> omega
       apply hzp (if st.lbits ≠ 0 then st.limb :: st.out else st.out).reverse
-      · unfold mpz_import mpz_import_core
+      · unfold mpz_import mpz_import_core mpz_import_fill
         have hnf : ¬ (nail = 0 ∧ size = 8 ∧ align = 0 ∧ order = -1 ∧ e' = -1) := by
           intro h; apply hfast; obtain ⟨a, b, c, d, e⟩ := h; exact ⟨a, b, c, by omega⟩
         have hnf2 : ¬ (nail = 0 ∧ size = 8 ∧ align = 0 ∧ order = -1 ∧ e' = 1) := by
@@ -1643,48 +1643,73 @@ theorem normalized_unique : ∀ {a b : List Nat}, Limbs a → TopNZ a → Limbs 
         | cons a as => rw [List.getLastD_cons, List.getLastD_cons] at this; rw [List.getLastD_cons]; exact this
       rw [e1, ih hxs txs hys tys e2]
 
-/-! ### output streams with an injected fault -/
+/-! ### output streams over an arbitrary sink -/
 
-/-- state of a stream whose write containing byte `k` fails: the error flag is set exactly when the
-    position has passed `k`, and then exactly one fault has fired -/
-def Faulty (k : Nat) (s : OStream) : Prop :=
-  s.failAt = some k ∧ (s.err = true ↔ k < s.pos) ∧ s.fired = (if k < s.pos then 1 else 0)
+/-- accounting invariant of a stream: what the sink took never exceeds what was handed over, the error flag is
+    set exactly when something was dropped, and exactly then some write call came back short.  With
+    `ko = some k` the sink is moreover the harness's (`sinkFailAt k`) and the flag is set exactly when the
+    position has passed `k`. -/
+def Faulty (ko : Option Nat) (s : OStream) : Prop :=
+  s.out.length ≤ s.pos ∧ (s.err = true ↔ s.out.length < s.pos) ∧ (s.fired = 0 ↔ s.out.length = s.pos) ∧
+  (∀ k, ko = some k → s.sink = sinkFailAt k ∧ (s.err = true ↔ k < s.pos))
 
-/-- a stream without fault -/
+/-- a stream whose sink takes everything -/
 def Healthy (s : OStream) : Prop :=
-  s.failAt = none ∧ s.err = false ∧ s.fired = 0 ∧ s.pos = s.out.length
+  (∀ p n, s.sink p n = n) ∧ s.err = false ∧ s.fired = 0 ∧ s.pos = s.out.length
 
-theorem faulty_init (k : Nat) : Faulty k { failAt := some k } := by simp [Faulty]
+theorem faulty_init (f : Nat → Nat → Nat) : Faulty none { sink := f } := by simp [Faulty]
+theorem faulty_init_at (k : Nat) : Faulty (some k) { sink := sinkFailAt k } := by simp [Faulty]
 theorem healthy_init : Healthy {} := by simp [Healthy]
 
-theorem write_faulty {k : Nat} {s : OStream} (h : Faulty k s) (chunk : List Nat) :
-    Faulty k (s.write chunk).1 ∧ (s.write chunk).1.pos = s.pos + chunk.length ∧
+theorem write_sticky (s : OStream) (chunk : List Nat) (h : s.err = true) : (s.write chunk).1.err = true := by
+  unfold OStream.write
+  split
+  · exact h
+  · simp [h]
+
+theorem err_false_of_write {s : OStream} {chunk : List Nat} (he : (s.write chunk).1.err = false) : s.err = false := by
+  cases h : s.err with
+  | false => rfl
+  | true => have := write_sticky s chunk h; rw [he] at this; cases this
+
+theorem write_faulty {ko : Option Nat} {s : OStream} (h : Faulty ko s) (chunk : List Nat) :
+    Faulty ko (s.write chunk).1 ∧ (s.write chunk).1.pos = s.pos + chunk.length ∧
     ((s.write chunk).1.err = false → (s.write chunk).2 = chunk.length) := by
-  obtain ⟨hf, he, hfi⟩ := h
+  obtain ⟨h1, h2, h3, h4⟩ := h
   unfold OStream.write
   by_cases hc : chunk.isEmpty
   · have : chunk = [] := by simpa using hc
-    subst this; simp [Faulty, hf, he, hfi]
-  · simp only [hc, Bool.false_eq_true, if_false, hf]
-    by_cases hit : s.fired = 0 ∧ s.pos ≤ k ∧ k < s.pos + chunk.length
-    · simp only [hit, and_self, if_true]
-      refine ⟨⟨by simp, by simp; omega, by simp; omega⟩, by simp, by simp⟩
-    · simp only [hit, if_false]
-      refine ⟨⟨by simp, ?_, ?_⟩, by simp, by simp⟩
-      · simp only; rw [he]
-        constructor
-        · intro h1; omega
-        · intro h1
-          by_contra h2
-          have hfz : s.fired = 0 := by rw [hfi]; simp [h2]
-          exact hit ⟨hfz, by omega, h1⟩
-      · simp only; rw [hfi]
-        by_cases h1 : k < s.pos
-        · have : k < s.pos + chunk.length := by omega
-          simp [h1, this]
-        · have hfz : s.fired = 0 := by rw [hfi]; simp [h1]
-          have : ¬ k < s.pos + chunk.length := fun h2 => hit ⟨hfz, by omega, h2⟩
-          simp [h1, this]
+    subst this
+    simp only [List.isEmpty_nil, if_true, List.length_nil, Nat.add_zero]
+    exact ⟨⟨h1, h2, h3, h4⟩, trivial, fun _ => trivial⟩
+  · simp only [hc, Bool.false_eq_true, if_false]
+    have hpos : 0 < chunk.length := by
+      cases chunk with
+      | nil => simp at hc
+      | cons a t => simp
+    generalize ha : min (s.sink s.pos chunk.length) chunk.length = a
+    have hal : a ≤ chunk.length := by rw [← ha]; exact Nat.min_le_right _ _
+    refine ⟨⟨?_, ?_, ?_, ?_⟩, trivial, ?_⟩
+    · simp only [List.length_append, List.length_take]; omega
+    · simp only [List.length_append, List.length_take, Bool.or_eq_true, decide_eq_true_eq, h2]; omega
+    · simp only [List.length_append, List.length_take]
+      by_cases hlt : a < chunk.length
+      · simp only [hlt, if_true]; omega
+      · simp only [hlt, if_false]; omega
+    · intro k hk
+      obtain ⟨g1, g2⟩ := h4 k hk
+      refine ⟨g1, ?_⟩
+      simp only [Bool.or_eq_true, decide_eq_true_eq, g2]
+      have hs : s.sink s.pos chunk.length = if k < s.pos then 0 else if k < s.pos + chunk.length then k - s.pos
+          else chunk.length := by rw [g1]; rfl
+      rw [hs] at ha
+      by_cases c1 : k < s.pos
+      · simp only [c1, if_true] at ha; omega
+      · by_cases c2 : k < s.pos + chunk.length
+        · simp only [c1, if_false, c2, if_true] at ha; omega
+        · simp only [c1, if_false, c2] at ha; omega
+    · simp only [Bool.or_eq_false_iff, decide_eq_false_iff_not]
+      intro hh; omega
 
 theorem write_healthy {s : OStream} (h : Healthy s) (chunk : List Nat) :
     Healthy (s.write chunk).1 ∧ (s.write chunk).1.out = s.out ++ chunk ∧ (s.write chunk).2 = chunk.length := by
@@ -1693,8 +1718,9 @@ theorem write_healthy {s : OStream} (h : Healthy s) (chunk : List Nat) :
   by_cases hc : chunk.isEmpty
   · have : chunk = [] := by simpa using hc
     subst this; simp [Healthy, hf, he, hfi, hp]
-  · simp only [hc, Bool.false_eq_true, if_false, hf]
-    refine ⟨⟨by simp, by simp [he], by simp [hfi], by simp [hp]⟩, by simp, by simp⟩
+  · simp only [hc, Bool.false_eq_true, if_false, hf, Nat.min_self, List.take_length, Nat.lt_irrefl, decide_false,
+      Bool.or_false, if_false, Nat.add_zero]
+    refine ⟨⟨hf, he, hfi, by simp [hp]⟩, trivial, trivial⟩
 
 /-- number of bytes `mpz_out_str` writes -/
 def mpzTextLen (base : Int) (x : Int) : Nat :=
@@ -1702,8 +1728,26 @@ def mpzTextLen (base : Int) (x : Int) : Nat :=
   | none => 0
   | some b => if x = 0 then 1 else (if x < 0 then 1 else 0) + (magText base b x.natAbs).length
 
-theorem mpz_out_str_faulty {k : Nat} {s : OStream} (h : Faulty k s) (base x : Int) :
-    Faulty k (mpz_out_str s base x).2 ∧ (mpz_out_str s base x).2.pos = s.pos + mpzTextLen base x ∧
+theorem mpz_out_str_sticky (s : OStream) (base x : Int) (h : s.err = true) : (mpz_out_str s base x).2.err = true := by
+  unfold mpz_out_str
+  cases outBase base with
+  | none => exact h
+  | some b =>
+    simp only
+    split
+    · exact write_sticky _ _ h
+    · split
+      · exact write_sticky _ _ (write_sticky _ _ h)
+      · exact write_sticky _ _ h
+
+theorem err_false_of_mpz_out_str {s : OStream} {base x : Int} (he : (mpz_out_str s base x).2.err = false) :
+    s.err = false := by
+  cases h : s.err with
+  | false => rfl
+  | true => have := mpz_out_str_sticky s base x h; rw [he] at this; cases this
+
+theorem mpz_out_str_faulty {ko : Option Nat} {s : OStream} (h : Faulty ko s) (base x : Int) :
+    Faulty ko (mpz_out_str s base x).2 ∧ (mpz_out_str s base x).2.pos = s.pos + mpzTextLen base x ∧
     ((mpz_out_str s base x).2.err = true → (mpz_out_str s base x).1 = 0) ∧
     ((mpz_out_str s base x).2.err = false → (mpz_out_str s base x).1 = mpzTextLen base x) := by
   unfold mpz_out_str mpzTextLen
@@ -1755,23 +1799,24 @@ theorem mpz_out_str_healthy {s : OStream} (h : Healthy s) (base x : Int) :
         refine ⟨v1, by rw [v2]; simp, ?_⟩
         simp [v1.2.1, v3]
 
-theorem faulty_err_mono {k : Nat} {s s' : OStream} (h : Faulty k s) (h' : Faulty k s') (hp : s.pos ≤ s'.pos)
-    (he : s'.err = false) : s.err = false := by
-  have h1 : ¬ k < s'.pos := by intro hk; have := h'.2.1.mpr hk; rw [he] at this; exact absurd this (by simp)
-  have h2 : ¬ k < s.pos := by omega
-  cases hs : s.err with
-  | false => rfl
-  | true => exact absurd (h.2.1.mp hs) h2
-
-theorem faulty_final {k : Nat} {s : OStream} (h : Faulty k s) : (s.err = true ↔ k < s.pos) ∧ (k < s.pos → s.fired = 1) :=
-  ⟨h.2.1, fun hk => by rw [h.2.2]; simp [hk]⟩
+/-- what the invariant says at the end of a function that started on a fresh stream and handed over `n` bytes:
+    the error flag is set exactly when the sink took fewer than `n` bytes, and then some write call was short -/
+theorem faulty_final {ko : Option Nat} {s : OStream} (h : Faulty ko s) :
+    (s.err = true ↔ s.out.length < s.pos) ∧ (s.err = false ↔ s.out.length = s.pos) ∧
+    (s.err = true ↔ s.fired ≠ 0) ∧ s.out.length ≤ s.pos := by
+  obtain ⟨h1, h2, h3, _⟩ := h
+  refine ⟨h2, ?_, ?_, h1⟩
+  · cases he : s.err with
+    | false => rw [he] at h2; simp at h2; simp; omega
+    | true => rw [he] at h2; simp at h2; simp; omega
+  · rw [h2, Ne, h3]; omega
 
 /-- number of bytes `mpq_out_str` writes -/
 def mpqTextLen (base : Int) (num den : Int) : Nat :=
   mpzTextLen base num + (if den ≠ 1 then 1 + mpzTextLen base den else 0)
 
-theorem mpq_out_str_faulty {k : Nat} {s : OStream} (h : Faulty k s) (base num den : Int) :
-    Faulty k (mpq_out_str s base num den).2 ∧ (mpq_out_str s base num den).2.pos = s.pos + mpqTextLen base num den ∧
+theorem mpq_out_str_faulty {ko : Option Nat} {s : OStream} (h : Faulty ko s) (base num den : Int) :
+    Faulty ko (mpq_out_str s base num den).2 ∧ (mpq_out_str s base num den).2.pos = s.pos + mpqTextLen base num den ∧
     ((mpq_out_str s base num den).2.err = true → (mpq_out_str s base num den).1 = 0) ∧
     ((mpq_out_str s base num den).2.err = false → (mpq_out_str s base num den).1 = mpqTextLen base num den) := by
   obtain ⟨a1, a2, a3, a4⟩ := mpz_out_str_faulty h base num
@@ -1781,7 +1826,7 @@ theorem mpq_out_str_faulty {k : Nat} {s : OStream} (h : Faulty k s) (base num de
     obtain ⟨w1, w2, _⟩ := write_faulty a1 [47]
     obtain ⟨b1, b2, b3, b4⟩ := mpz_out_str_faulty w1 base den
     refine ⟨b1, by rw [b2, w2, a2]; simp; omega, ?_, ?_⟩ <;> intro he <;> simp only [he, if_true, if_false, Bool.false_eq_true]
-    have e1 := faulty_err_mono a1 b1 (by rw [b2, w2]; omega) he
+    have e1 := err_false_of_write (err_false_of_mpz_out_str he)
     rw [a4 e1, b4 he]
   · simp only [hd, if_false]
     refine ⟨a1, by rw [a2]; simp, ?_, ?_⟩ <;> intro he <;> simp only [he, if_true, if_false, Bool.false_eq_true]
@@ -1807,8 +1852,8 @@ theorem mpq_out_str_healthy {s : OStream} (h : Healthy s) (base num den : Int) :
 def mpfTextLen (_base : Int) (str : List Nat) (exp : Int) : Nat :=
   str.length + 2 + (1 + (intText exp).length)
 
-theorem mpf_out_str_faulty {k : Nat} {s : OStream} (h : Faulty k s) (base : Int) (str : List Nat) (exp : Int) :
-    Faulty k (mpf_out_str s base str exp).2 ∧ (mpf_out_str s base str exp).2.pos = s.pos + mpfTextLen base str exp ∧
+theorem mpf_out_str_faulty {ko : Option Nat} {s : OStream} (h : Faulty ko s) (base : Int) (str : List Nat) (exp : Int) :
+    Faulty ko (mpf_out_str s base str exp).2 ∧ (mpf_out_str s base str exp).2.pos = s.pos + mpfTextLen base str exp ∧
     ((mpf_out_str s base str exp).2.err = true → (mpf_out_str s base str exp).1 = 0) ∧
     ((mpf_out_str s base str exp).2.err = false → (mpf_out_str s base str exp).1 = mpfTextLen base str exp) := by
   unfold mpf_out_str mpfTextLen
@@ -1826,7 +1871,7 @@ theorem mpf_out_str_faulty {k : Nat} {s : OStream} (h : Faulty k s) (base : Int)
     · rw [p5, p4, p3, p2, p1]; simp; omega
     · intro he; simp [he]
     · intro he
-      have e4 := faulty_err_mono w4 w5 (by rw [p5]; omega) he
+      have e4 := err_false_of_write he
       simp only [he, Bool.false_eq_true, if_false, n4 e4, n5 he, if_true]
       simp; omega
   · simp only [hn, if_false]
@@ -1838,19 +1883,34 @@ theorem mpf_out_str_faulty {k : Nat} {s : OStream} (h : Faulty k s) (base : Int)
     · rw [p5, p4, p3, p2]; simp; omega
     · intro he; simp [he]
     · intro he
-      have e4 := faulty_err_mono w4 w5 (by rw [p5]; omega) he
+      have e4 := err_false_of_write he
       simp only [he, Bool.false_eq_true, if_false, n4 e4, n5 he, if_true]
       simp; omega
 
-theorem mpz_out_raw_faulty (z : Mpz) (k : Nat) (hk : k < (out_raw_m z).length) :
-    (mpz_out_raw { failAt := some k } z).1 = 0 ∧ (mpz_out_raw { failAt := some k } z).2.fired = 1 := by
+/-- `mpz_out_raw` on any sink: one `fwrite` of the whole record; 0 unless the sink took all of it -/
+theorem mpz_out_raw_faulty (z : Mpz) (f : Nat → Nat → Nat) :
+    (f 0 (out_raw_m z).length < (out_raw_m z).length →
+      (mpz_out_raw { sink := f } z).1 = 0 ∧ (mpz_out_raw { sink := f } z).2.fired = 1 ∧
+      (mpz_out_raw { sink := f } z).2.out = (out_raw_m z).take (f 0 (out_raw_m z).length)) ∧
+    ((out_raw_m z).length ≤ f 0 (out_raw_m z).length →
+      (mpz_out_raw { sink := f } z).1 = (out_raw_m z).length ∧ (mpz_out_raw { sink := f } z).2.fired = 0 ∧
+      (mpz_out_raw { sink := f } z).2.out = out_raw_m z) := by
+  have hlen : 4 ≤ (out_raw_m z).length := by unfold out_raw_m; simp [hdrBytes]
   have hne : (out_raw_m z).isEmpty = false := by
     cases h : out_raw_m z with
-    | nil => rw [h] at hk; simp at hk
+    | nil => rw [h] at hlen; simp at hlen
     | cons a t => rfl
-  have hl : (out_raw_m z).length ≠ 0 := by omega
-  simp [mpz_out_raw, OStream.write, hne, hk, hl]
-  intro h; omega
+  constructor
+  · intro hk
+    have hmin : min (f 0 (out_raw_m z).length) (out_raw_m z).length = f 0 (out_raw_m z).length := by omega
+    simp only [mpz_out_raw, OStream.write, hne, Bool.false_eq_true, if_false, hmin, hk, if_true]
+    refine ⟨?_, trivial, by simp⟩
+    have : f 0 (out_raw_m z).length ≠ (out_raw_m z).length := by omega
+    simp [this]
+  · intro hk
+    have hmin : min (f 0 (out_raw_m z).length) (out_raw_m z).length = (out_raw_m z).length := by omega
+    simp only [mpz_out_raw, OStream.write, hne, Bool.false_eq_true, if_false, hmin, Nat.lt_irrefl, if_false]
+    simp
 
 /-! ### truncated input -/
 
@@ -2203,35 +2263,31 @@ theorem mpz_text_roundtrip (base : Int) (hb : (2 ≤ base ∧ base ≤ 62) ∨ (
 
 /-! ### gmp_fprintf through the repaired `__gmp_fprintf_funs` -/
 
-theorem write_ok_or_fail {k : Nat} {s : OStream} (h : Faulty k s) (he : s.err = false) (chunk : List Nat)
+theorem write_ok_or_fail {ko : Option Nat} {s : OStream} (h : Faulty ko s) (he : s.err = false) (chunk : List Nat)
     (hne : chunk ≠ []) :
-    Faulty k (s.write chunk).1 ∧
+    Faulty ko (s.write chunk).1 ∧
     (((s.write chunk).2 = chunk.length ∧ (s.write chunk).1.err = false ∧ (s.write chunk).1.pos = s.pos + chunk.length) ∨
-     ((s.write chunk).2 = 0 ∧ (s.write chunk).1.err = true)) := by
+     ((s.write chunk).2 < chunk.length ∧ (s.write chunk).1.err = true)) := by
   obtain ⟨w1, w2, w3⟩ := write_faulty h chunk
   refine ⟨w1, ?_⟩
   cases hE : (s.write chunk).1.err with
   | false => left; exact ⟨w3 hE, rfl, w2⟩
   | true =>
     right; refine ⟨?_, rfl⟩
-    -- the error flag can only have been raised by this very write, which then accepted nothing
-    obtain ⟨hf, hpos, hfi⟩ := h
-    have hnk : ¬ k < s.pos := by intro hk; have := hpos.mpr hk; rw [he] at this; exact absurd this (by simp)
-    have hfz : s.fired = 0 := by rw [hfi]; simp [hnk]
+    -- the error flag can only have been raised by this very write, which then came back short
     have hemp : chunk.isEmpty = false := by cases chunk <;> simp_all
     unfold OStream.write at hE ⊢
-    simp only [hemp, Bool.false_eq_true, if_false, hf] at hE ⊢
-    by_cases hit : s.fired = 0 ∧ s.pos ≤ k ∧ k < s.pos + chunk.length
-    · simp [hit]
-    · simp only [hit, if_false] at hE; rw [he] at hE; exact absurd hE (by simp)
+    simp only [hemp, Bool.false_eq_true, if_false, he, Bool.false_or, decide_eq_true_eq] at hE ⊢
+    exact hE
 
-/-- outcome of one output stage: either it reported −1, or it wrote all its `n` bytes without error -/
-def StageOK (k : Nat) (s : OStream) (n : Nat) (res : OStream × Int) : Prop :=
-  Faulty k res.1 ∧ (res.2 = -1 ∨ (res.2 = (n : Int) ∧ res.1.err = false ∧ res.1.pos = s.pos + n))
+/-- outcome of one output stage: either it reported −1 and the error flag is up, or it wrote all its `n` bytes
+    without error -/
+def StageOK (ko : Option Nat) (s : OStream) (n : Nat) (res : OStream × Int) : Prop :=
+  Faulty ko res.1 ∧ ((res.2 = -1 ∧ res.1.err = true) ∨ (res.2 = (n : Int) ∧ res.1.err = false ∧ res.1.pos = s.pos + n))
 
-theorem reps_go_stage {k : Nat} (c : Nat) : ∀ (fuel i : Nat) (s : OStream), Faulty k s → s.err = false → i ≤ 256 * fuel →
-    Faulty k (fprintfReps.go true c fuel i s).1 ∧
-    ((fprintfReps.go true c fuel i s).2 = false ∨
+theorem reps_go_stage {ko : Option Nat} (c : Nat) : ∀ (fuel i : Nat) (s : OStream), Faulty ko s → s.err = false → i ≤ 256 * fuel →
+    Faulty ko (fprintfReps.go true c fuel i s).1 ∧
+    (((fprintfReps.go true c fuel i s).2 = false ∧ (fprintfReps.go true c fuel i s).1.err = true) ∨
      ((fprintfReps.go true c fuel i s).2 = true ∧ (fprintfReps.go true c fuel i s).1.err = false ∧
       (fprintfReps.go true c fuel i s).1.pos = s.pos + i)) := by
   intro fuel
@@ -2259,22 +2315,24 @@ theorem reps_go_stage {k : Nat} (c : Nat) : ∀ (fuel i : Nat) (s : OStream), Fa
         · left; exact g
         · right; refine ⟨ga, gb, ?_⟩
           rw [gc, p1]; simp
-      · have hn : (s.write (List.replicate (min i 256) c)).2 ≠ min i 256 := by rw [n0]; omega
+      · have hn : (s.write (List.replicate (min i 256) c)).2 ≠ min i 256 := by
+          have : (s.write (List.replicate (min i 256) c)).2 < min i 256 := by simpa using n0
+          omega
         simp only [hn, ne_eq, not_false_eq_true, and_self, if_true]
-        exact ⟨w1, Or.inl trivial⟩
+        exact ⟨w1, Or.inl ⟨trivial, e0⟩⟩
 
-theorem reps_stage {k : Nat} {s : OStream} (h : Faulty k s) (he : s.err = false) (c reps : Nat) :
-    StageOK k s reps (fprintfReps true s c reps) := by
-  obtain ⟨g1, g2⟩ := reps_go_stage (k := k) c (reps / 256 + 1) reps s h he (by omega)
+theorem reps_stage {ko : Option Nat} {s : OStream} (h : Faulty ko s) (he : s.err = false) (c reps : Nat) :
+    StageOK ko s reps (fprintfReps true s c reps) := by
+  obtain ⟨g1, g2⟩ := reps_go_stage (ko := ko) c (reps / 256 + 1) reps s h he (by omega)
   unfold StageOK fprintfReps
   simp only
   refine ⟨g1, ?_⟩
-  rcases g2 with g | ⟨ga, gb, gc⟩
-  · left; simp [g]
+  rcases g2 with ⟨g, ge⟩ | ⟨ga, gb, gc⟩
+  · left; simp [g, ge]
   · right; simp [ga, gb, gc]
 
-theorem memory_stage {k : Nat} {s : OStream} (h : Faulty k s) (he : s.err = false) (t : List Nat) (ht : t ≠ []) :
-    StageOK k s t.length (fprintfMemory true s t) := by
+theorem memory_stage {ko : Option Nat} {s : OStream} (h : Faulty ko s) (he : s.err = false) (t : List Nat) (ht : t ≠ []) :
+    StageOK ko s t.length (fprintfMemory true s t) := by
   obtain ⟨w1, w2⟩ := write_ok_or_fail h he t ht
   unfold StageOK fprintfMemory
   simp only
@@ -2282,12 +2340,11 @@ theorem memory_stage {k : Nat} {s : OStream} (h : Faulty k s) (he : s.err = fals
   rcases w2 with ⟨n1, e1, p1⟩ | ⟨n0, e0⟩
   · right; simp [n1, e1, p1]
   · left
-    have : (s.write t).2 ≠ t.length := by
-      rw [n0]; intro hh; exact ht (List.eq_nil_of_length_eq_zero hh.symm)
-    simp [this]
+    have : (s.write t).2 ≠ t.length := by omega
+    simp [this, e0]
 
-theorem format_stage {k : Nat} {s : OStream} (h : Faulty k s) (he : s.err = false) (t : List Nat) (ht : t ≠ []) :
-    StageOK k s t.length (fprintfFormat s t) := by
+theorem format_stage {ko : Option Nat} {s : OStream} (h : Faulty ko s) (he : s.err = false) (t : List Nat) (ht : t ≠ []) :
+    StageOK ko s t.length (fprintfFormat s t) := by
   obtain ⟨w1, w2⟩ := write_ok_or_fail h he t ht
   unfold StageOK fprintfFormat
   simp only
@@ -2295,17 +2352,22 @@ theorem format_stage {k : Nat} {s : OStream} (h : Faulty k s) (he : s.err = fals
   rcases w2 with ⟨n1, e1, p1⟩ | ⟨n0, e0⟩
   · right; simp [n1, e1, p1]
   · left
-    have : (s.write t).2 ≠ t.length := by
-      rw [n0]; intro hh; exact ht (List.eq_nil_of_length_eq_zero hh.symm)
-    simp [this]
+    have : (s.write t).2 ≠ t.length := by omega
+    simp [this, e0]
 
-theorem skip_stage {k : Nat} {s : OStream} (h : Faulty k s) (he : s.err = false) : StageOK k s 0 (s, (0 : Int)) :=
+theorem skip_stage {ko : Option Nat} {s : OStream} (h : Faulty ko s) (he : s.err = false) : StageOK ko s 0 (s, (0 : Int)) :=
   ⟨h, Or.inr ⟨rfl, he, rfl⟩⟩
 
-/-- the repaired `gmp_fprintf` path reports −1 for EVERY position at which the write fails -/
-theorem gmp_fprintf_fault (k : Nat) (pre : List Nat) (width base : Nat) (hb : 2 ≤ base) (x : Int) (post : List Nat)
-    (hk : k < (fprintfText pre width base x post).length) :
-    (gmpFprintfModel true { failAt := some k } pre width base x post).1 = -1 := by
+/-- the repaired `gmp_fprintf` path on ANY stream satisfying the accounting invariant with no error pending: it
+    reports −1 with the error flag up, or it has handed over the whole text without error and reports its length -/
+theorem gmp_fprintf_stages {ko : Option Nat} (s0 : OStream) (h0 : Faulty ko s0) (he0 : s0.err = false)
+    (pre : List Nat) (width base : Nat) (hb : 2 ≤ base) (x : Int) (post : List Nat) :
+    Faulty ko (gmpFprintfModel true s0 pre width base x post).2 ∧
+    (((gmpFprintfModel true s0 pre width base x post).1 = -1 ∧
+      (gmpFprintfModel true s0 pre width base x post).2.err = true) ∨
+     ((gmpFprintfModel true s0 pre width base x post).1 = ((fprintfText pre width base x post).length : Int) ∧
+      (gmpFprintfModel true s0 pre width base x post).2.err = false ∧
+      (gmpFprintfModel true s0 pre width base x post).2.pos = s0.pos + (fprintfText pre width base x post).length)) := by
   have hdigs : (if x = 0 then [48] else magText base base x.natAbs) ≠ [] := by
     split
     · simp
@@ -2320,25 +2382,24 @@ theorem gmp_fprintf_fault (k : Nat) (pre : List Nat) (width base : Nat) (hb : 2 
       = pre.length + (width - ((if x < 0 then 1 else 0) + digs.length)) + (if x < 0 then 1 else 0) + digs.length + post.length := by
     unfold fprintfText; simp only [hdg]; split <;> simp <;> omega
   -- stage 1: text before the conversion
-  have h0 := faulty_init k
-  have st1 : StageOK k { failAt := some k } pre.length
-      (if pre.isEmpty then (({ failAt := some k } : OStream), (0 : Int)) else fprintfFormat { failAt := some k } pre) := by
+  have st1 : StageOK ko s0 pre.length
+      (if pre.isEmpty then (s0, (0 : Int)) else fprintfFormat s0 pre) := by
     by_cases hp : pre.isEmpty
     · have : pre = [] := by simpa using hp
-      subst this; simpa using skip_stage h0 rfl
+      subst this; simpa using skip_stage h0 he0
     · simp only [hp, Bool.false_eq_true, if_false]
-      exact format_stage h0 rfl pre (by intro h; simp [h] at hp)
-  generalize hs1 : (if pre.isEmpty then (({ failAt := some k } : OStream), (0 : Int)) else fprintfFormat { failAt := some k } pre) = q1 at st1 ⊢
+      exact format_stage h0 he0 pre (by intro h; simp [h] at hp)
+  generalize hs1 : (if pre.isEmpty then (s0, (0 : Int)) else fprintfFormat s0 pre) = q1 at st1 ⊢
   obtain ⟨s1, r1⟩ := q1
   obtain ⟨f1, o1⟩ := st1
   try simp only
-  rcases o1 with o1 | ⟨v1, e1, p1⟩
-  · (try simp only at o1); simp [o1]
+  rcases o1 with ⟨o1, oe1⟩ | ⟨v1, e1, p1⟩
+  · (try simp only at o1 oe1 f1); simp [o1, oe1, f1]
   try simp only at v1 e1 p1 f1
   have hr1 : ¬ r1 = -1 := by rw [v1]; omega
   simp only [hr1, if_false]
   -- stage 2: padding
-  have st2 : StageOK k s1 (width - ((if x < 0 then 1 else 0) + digs.length))
+  have st2 : StageOK ko s1 (width - ((if x < 0 then 1 else 0) + digs.length))
       (if ((width : Int) - ((digs.length : Int) + (if x < 0 then 1 else 0)) > 0) then
         fprintfReps true s1 32 ((width : Int) - ((digs.length : Int) + (if x < 0 then 1 else 0))).toNat else (s1, 0)) := by
     by_cases hj : ((width : Int) - ((digs.length : Int) + (if x < 0 then 1 else 0)) > 0)
@@ -2356,13 +2417,13 @@ theorem gmp_fprintf_fault (k : Nat) (pre : List Nat) (width base : Nat) (hb : 2 
   obtain ⟨s2, r2⟩ := q2
   obtain ⟨f2, o2⟩ := st2
   try simp only
-  rcases o2 with o2 | ⟨v2, e2, p2⟩
-  · (try simp only at o2); simp [o2]
+  rcases o2 with ⟨o2, oe2⟩ | ⟨v2, e2, p2⟩
+  · (try simp only at o2 oe2 f2); simp [o2, oe2, f2]
   try simp only at v2 e2 p2 f2
   have hr2 : ¬ r2 = -1 := by rw [v2]; omega
   simp only [hr2, if_false]
   -- stage 3: sign
-  have st3 : StageOK k s2 (if x < 0 then 1 else 0)
+  have st3 : StageOK ko s2 (if x < 0 then 1 else 0)
       (if (if x < 0 then (1 : Int) else 0) ≠ 0 then fprintfReps true s2 45 1 else (s2, 0)) := by
     by_cases hn : x < 0
     · simp only [hn, if_true, ne_eq, one_ne_zero, not_false_eq_true]; exact reps_stage f2 e2 45 1
@@ -2371,8 +2432,8 @@ theorem gmp_fprintf_fault (k : Nat) (pre : List Nat) (width base : Nat) (hb : 2 
   obtain ⟨s3, r3⟩ := q3
   obtain ⟨f3, o3⟩ := st3
   try simp only
-  rcases o3 with o3 | ⟨v3, e3, p3⟩
-  · (try simp only at o3); simp [o3]
+  rcases o3 with ⟨o3, oe3⟩ | ⟨v3, e3, p3⟩
+  · (try simp only at o3 oe3 f3); simp [o3, oe3, f3]
   try simp only at v3 e3 p3 f3
   have hr3 : ¬ r3 = -1 := by rw [v3]; split <;> omega
   simp only [hr3, if_false]
@@ -2382,13 +2443,13 @@ theorem gmp_fprintf_fault (k : Nat) (pre : List Nat) (width base : Nat) (hb : 2 
   obtain ⟨s4, r4⟩ := q4
   obtain ⟨f4, o4⟩ := st4
   try simp only
-  rcases o4 with o4 | ⟨v4, e4, p4⟩
-  · (try simp only at o4); simp [o4]
+  rcases o4 with ⟨o4, oe4⟩ | ⟨v4, e4, p4⟩
+  · (try simp only at o4 oe4 f4); simp [o4, oe4, f4]
   try simp only at v4 e4 p4 f4
   have hr4 : ¬ r4 = -1 := by rw [v4]; omega
   simp only [hr4, if_false]
   -- stage 5: text after the conversion
-  have st5 : StageOK k s4 post.length (if post.isEmpty then (s4, (0 : Int)) else fprintfFormat s4 post) := by
+  have st5 : StageOK ko s4 post.length (if post.isEmpty then (s4, (0 : Int)) else fprintfFormat s4 post) := by
     by_cases hp : post.isEmpty
     · have : post = [] := by simpa using hp
       subst this; simpa using skip_stage f4 e4
@@ -2398,15 +2459,26 @@ theorem gmp_fprintf_fault (k : Nat) (pre : List Nat) (width base : Nat) (hb : 2 
   obtain ⟨s5, r5⟩ := q5
   obtain ⟨f5, o5⟩ := st5
   try simp only
-  rcases o5 with o5 | ⟨v5, e5, p5⟩
-  · (try simp only at o5); simp [o5]
-  -- everything was written without an error: the fault position lies beyond the output
-  exfalso
-  try simp only at e5 p5 f5
-  have hpos : s5.pos = (fprintfText pre width base x post).length := by
-    rw [htot, p5, p4, p3, p2, p1]; omega
-  have := f5.2.1.mpr (by rw [hpos]; exact hk)
-  rw [e5] at this; exact absurd this (by simp)
+  rcases o5 with ⟨o5, oe5⟩ | ⟨v5, e5, p5⟩
+  · (try simp only at o5 oe5 f5); simp [o5, oe5, f5]
+  -- everything was handed over without an error
+  try simp only at v5 e5 p5 f5
+  have hr5 : ¬ r5 = -1 := by rw [v5]; omega
+  simp only [hr5, if_false]
+  refine ⟨f5, Or.inr ⟨?_, e5, ?_⟩⟩
+  · rw [v1, v2, v3, v4, v5, htot]; push_cast; split <;> simp <;> omega
+  · rw [htot, p5, p4, p3, p2, p1]; omega
+
+/-- the repaired `gmp_fprintf` path reports −1 for EVERY position at which the write fails -/
+theorem gmp_fprintf_fault (k : Nat) (pre : List Nat) (width base : Nat) (hb : 2 ≤ base) (x : Int) (post : List Nat)
+    (hk : k < (fprintfText pre width base x post).length) :
+    (gmpFprintfModel true { sink := sinkFailAt k } pre width base x post).1 = -1 := by
+  obtain ⟨f, o⟩ := gmp_fprintf_stages (ko := some k) { sink := sinkFailAt k } (faulty_init_at k) rfl pre width base hb x post
+  rcases o with ⟨o, _⟩ | ⟨_, e, p⟩
+  · exact o
+  · exfalso
+    have := (f.2.2.2 k rfl).2.mpr (by rw [p]; simpa using hk)
+    rw [e] at this; exact absurd this (by simp)
 
 
 /-! ### text round trip (mpq) -/
